@@ -11,6 +11,7 @@ import (
 	"fmt"
 	"os"
 	"path/filepath"
+	"runtime"
 	"runtime/debug"
 	"sort"
 	"strconv"
@@ -236,6 +237,53 @@ func (r *Report) HarnessError(format string, a ...any) {
 	if r.t != nil {
 		r.t.Logf("HARNESS-ERROR: %s", r.HarnessErr)
 	}
+}
+
+// Watch declares that no single evaluation of this sub-check takes anywhere near limit: when the
+// evaluation counter does not advance for limit, the code under test is judged not to terminate.
+// The violation (signature <property>|non-termination|<sub>|<file of the innermost repository
+// frame>) is recorded, the report is written and the process exits, since a goroutine that spins
+// cannot be stopped.  what() describes the case in progress.  The returned function ends the watch.
+func (r *Report) Watch(limit time.Duration, what func() string) (stop func()) {
+	done := make(chan struct{})
+	go func() {
+		tick := time.NewTicker(2 * time.Second)
+		defer tick.Stop()
+		last, since := int64(-1), time.Now()
+		for {
+			select {
+			case <-done:
+				return
+			case <-tick.C:
+			}
+			r.mu.Lock()
+			ev := r.Evaluations
+			r.mu.Unlock()
+			if ev != last {
+				last, since = ev, time.Now()
+				continue
+			}
+			if time.Since(since) < limit {
+				continue
+			}
+			buf := make([]byte, 1<<20)
+			buf = buf[:runtime.Stack(buf, true)]
+			frame := firstRepoFrame(string(buf))
+			file := frame
+			if i := strings.LastIndex(file, ":"); i > 0 {
+				file = file[:i]
+			}
+			desc := ""
+			if what != nil {
+				desc = what()
+			}
+			r.Violate(fmt.Sprintf("%s|non-termination|%s|%s", r.Property, r.Sub, file), fmt.Sprintf("no evaluation completed for %.0fs (each takes far less): %s; spinning at %s", limit.Seconds(), desc, frame), desc)
+			r.Cap("aborted: the code under test did not return")
+			r.Finish()
+			os.Exit(0)
+		}
+	}()
+	return func() { close(done) }
 }
 
 // Guard runs f and converts a panic into (panicked=true, message).
